@@ -151,7 +151,7 @@ theorem outdated_snapshot_discarded (walEnd : Nat) (s : Snap) (h : walEnd < s.se
     snapUse walEnd (some s) = .outdated := by
   simp [snapUse, h]
 
-/-- Finding F31 (the code before the repair 8fa382808e, `mm0 = some 0`; `codeMm0` is now `none`): samples with timestamp ≤ 0 logged after the
+/-- Finding F31 (the code before the repair db72a46e05, `mm0 = some 0`; `codeMm0` is now `none`): samples with timestamp ≤ 0 logged after the
     snapshot are dropped for snapshot-loaded series — here `s0@-160` and `s1@-150` of `exampleDisk` — although the
     snapshot is the exact image of the WAL prefix. -/
 theorem tail_nonpositive_lost_witness :
